@@ -53,7 +53,11 @@ class LaunchMonitor(Monitor):
                                            'property': 'C02'})
         if not model.valid(name, p):
             res.violate('launch_invalid_point', {
-                'instance': prog.iid(name, p), 't': now})
+                'instance': prog.iid(name, p), 't': now, 'property': 'C07'})
+        if p > model.stop and (name, p) not in self.manual:
+            res.violate('launched_beyond_stop_point', {
+                'instance': prog.iid(name, p), 'stop': prog.pstr(model.stop),
+                'property': 'C07'})
         if (name, p) in self.manual:
             return
         if self.check_prereqs:
@@ -61,6 +65,7 @@ class LaunchMonitor(Monitor):
             for e in model.prereq_exprs(name, p):
                 if not model.eval(e, truth, p):
                     res.violate('launch_prereq_unsatisfied', {
+                        'property': 'C01',
                         'instance': prog.iid(name, p), 'submit': nn,
                         't': now, 'expr': repr(e),
                         'truth': {f'{k[1]}/{k[0]}': sorted(v)
@@ -129,3 +134,112 @@ def viol_dicts(res, pid, predicates=None):
                     'choices': list(res.sim.choices),
                     'trace': res.sim.events[-60:]})
     return out
+
+
+# ---------------------------------------------------------------------------
+# generic E1 driver
+# ---------------------------------------------------------------------------
+
+EXPECTED_STOPS = ('stop:AUTOMATIC',)
+
+
+def unexpected_stop(stop):
+    """A scheduler exit that is neither a normal stop nor the configured
+    abort-on-stall."""
+    if stop.startswith('stop:'):
+        return False
+    if 'stall timeout' in stop:
+        return False
+    return True
+
+
+def generic_run(pid, params, knobs=None, policy='complete', plan_kw=None,
+                modes=('none', 'sched', 'lossy'), monitors=None,
+                end_check=None, probe_key=None, world_cfg=None, opts=None,
+                prog_hook=None, own_rules=None):
+    """Run one E1 case with the standard monitors; returns the driver dict.
+
+    probe_key: name of the probe that makes a run non-trivial for ``pid``.
+    """
+    from ..monitors import InvariantMonitor
+    seed = params['seed']
+    rng = random.Random(derive_seed(seed, 'swarm'))
+    mode = params.get('mode') or modes[seed % len(modes)]
+    rates = {'none': RATES_NONE, 'sched': RATES_SCHED,
+             'lossy': RATES_LOSSY}.get(mode, RATES_NONE)
+    if params.get('rates'):
+        rates = params['rates']
+    kn = dict(knobs or {})
+    kn.update(params.get('knobs') or {})
+    case = Case(seed, knobs=kn, rates=rates, policy=policy,
+                plan_kw=plan_kw or {}, gkw=swarm_gkw(rng),
+                world_cfg=world_cfg or {}, opts=opts or {})
+    case.choices = params.get('choices')
+    case.build()
+    if prog_hook:
+        prog_hook(case.prog, rng)
+    o = case.opts
+    if case.prog.stop is not None:
+        o['stopcp'] = case.prog.pstr(case.prog.stop)
+    if case.prog.start is not None:
+        o['startcp'] = case.prog.pstr(case.prog.start)
+    if case.prog.hold is not None:
+        o['holdcp'] = case.prog.pstr(case.prog.hold)
+    mons = [LaunchMonitor(), InvariantMonitor(relaxed=(mode == 'lossy'))]
+    mons += list(monitors or [])
+    res = run_case(case, monitors=mons)
+    if res.error:
+        return {'error': res.error, 'violations': [], 'stats': {}}
+    preds = {}
+    if unexpected_stop(res.stops[-1]):
+        res.violate('scheduler_aborted_unexpectedly', {
+            'stop': res.stops[-1], 'property': 'C03',
+            'log_tail': res.log_tail[-6:]})
+    if end_check:
+        preds = end_check(res, mode) or {}
+    nontriv = None
+    if probe_key is None or res.sim.probes.get(probe_key):
+        nontriv = [res.prog.render(), res.sim.hexdigest()]
+    return {
+        'violations': viol_dicts(res, pid, preds),
+        'stats': base_stats(res, nontriv),
+        'sample': sample_of(res, {'mode': mode}),
+    }
+
+
+def final_db_outputs(res):
+    """Final completed outputs per instance as recorded in the run DB
+    (read before cleanup by FinalDbMonitor)."""
+    return getattr(res, 'db_outputs', {})
+
+
+class FinalDbMonitor(Monitor):
+    """Reads the private DB after shutdown: outputs, states, jobs."""
+
+    def finish(self, h, res, case):
+        import json
+        import os
+        import sqlite3
+        path = os.path.join(h.run_dir, '.service', 'db')
+        res.db_outputs = {}
+        res.db_states = {}
+        res.db_jobs = []
+        if not os.path.exists(path):
+            return
+        con = sqlite3.connect(f'file:{path}?mode=ro', uri=True)
+        try:
+            for cycle, name, fn, outs in con.execute(
+                    'SELECT cycle, name, flow_nums, outputs FROM task_outputs'):
+                o = json.loads(outs) if outs else {}
+                names = set(o.keys()) if isinstance(o, dict) else set(o)
+                res.db_outputs.setdefault((name, cycle), set()).update(names)
+            for cycle, name, fn, status, sn in con.execute(
+                    'SELECT cycle, name, flow_nums, status, submit_num '
+                    'FROM task_states'):
+                res.db_states[(name, cycle, fn)] = (status, sn)
+            for row in con.execute(
+                    'SELECT cycle, name, submit_num, submit_status, '
+                    'run_status FROM task_jobs'):
+                res.db_jobs.append(row)
+        finally:
+            con.close()
